@@ -143,9 +143,9 @@ impl Compiler {
         _object: &Expr,
         _range: &Expr,
         _dest: u8,
-        _span: Span,
+        span: Span,
     ) -> Result<()> {
-        todo!("slice")
+        Err(self.unsupported("slice expressions (`a[i..j]`)", span))
     }
 
     pub fn compile_range(
@@ -154,8 +154,8 @@ impl Compiler {
         _end: &Option<Box<Expr>>,
         _inclusive: bool,
         _dest: u8,
-        _span: Span,
+        span: Span,
     ) -> Result<()> {
-        todo!("range")
+        Err(self.unsupported("range expressions outside a `for` loop", span))
     }
 }
